@@ -25,13 +25,14 @@ def ref_anb(a: int, b: int, pos: int) -> bool:
 
 
 # node kinds of a sibling layout
-K_LI, K_LIX, K_P, K_PX, K_TEXT, K_COMMENT, K_LIU = range(7)
-ELEMENT_KINDS = (K_LI, K_LIX, K_P, K_PX, K_LIU)      # K_LIU: <LI> spelled in upper case through the API
+K_LI, K_LIX, K_P, K_PX, K_TEXT, K_COMMENT, K_LIU, K_LIN = range(8)
+# K_LIU: <LI> spelled in upper case through the API; K_LIN: <li> (same prefix) in another namespace
+ELEMENT_KINDS = (K_LI, K_LIX, K_P, K_PX, K_LIU, K_LIN)
 
 
 def _layouts():
     out = []
-    full = (K_LI, K_LIX, K_P, K_PX, K_TEXT, K_COMMENT, K_LIU)
+    full = (K_LI, K_LIX, K_P, K_PX, K_TEXT, K_COMMENT, K_LIU, K_LIN)
     small = (K_LI, K_P, K_TEXT)
     maxfull, maxsmall = (3, 4) if TIER == 'quick' else (5, 8)
     for n in range(1, maxfull + 1):
@@ -61,7 +62,9 @@ def build(layout, container):
     els = []
     for k in layout:
         if k in ELEMENT_KINDS:
-            el = soup.new_tag('LI' if k == K_LIU else ('li' if k in (K_LI, K_LIX) else 'p'))
+            el = soup.new_tag('LI' if k == K_LIU else ('li' if k in (K_LI, K_LIX, K_LIN) else 'p'))
+            if k == K_LIN:
+                el.namespace = 'urn:n'
             if k in (K_LIX, K_PX):
                 el.attrs['class'] = ['x']
             parent.append(el)
@@ -76,6 +79,8 @@ def build(layout, container):
 def _type_of(k, xml):
     if k in (K_LI, K_LIX):
         return 'li'
+    if k == K_LIN:
+        return ('li', 'urn:n') if xml else 'li'     # trees from html.parser carry no namespaces: the attribute is ignored
     if k == K_LIU:
         return 'LI' if xml else 'li'
     return 'p'
